@@ -350,7 +350,8 @@ def work_retrans(case):
     kind, lr, lp, ticks, fine = case[:5]
     oneway = len(case) > 5 and case[5]
     try:
-        obs = run_retrans(kind, set(lr), set(lp), list(ticks), oneway=oneway)
+        # the give-up takes one pass of the loop per retransmission: with passes far apart the horizon grows with them
+        obs = run_retrans(kind, set(lr), set(lp), list(ticks), oneway=oneway, horizon=max(45.0, (MAXR + 2) * max(ticks) + 5))
     except NotSent:
         return [('request-never-sent', 'the %s request is not sent at all when its trigger fires (timer due / kernel event)' % kind)], (0, False, False)
     res = judge_retrans(kind, obs, fine)
